@@ -46,17 +46,18 @@ Proof.
 Qed.
 
 (** a raising action ([SBad]: missing column, missing view, bad join column, alias-then-missing) binds nothing and
-    leaves views, schema cache, engine catalog and counter untouched; the registries only grow *)
+    leaves views, schema cache and engine catalog untouched; the registries and the counter only grow *)
 Theorem failed_action_no_write : forall g s e d k src,
   let out := run_step g s e d (SBad k src) in
   snd (fst out) = None /\ snd out = Some OErr /\
   views (fst (fst out)) = views s /\ scache (fst (fst out)) = scache s /\
-  eviews (fst (fst out)) = eviews s /\ counter (fst (fst out)) = counter s /\
+  eviews (fst (fst out)) = eviews s /\ counter s <= counter (fst (fst out)) /\
   grows (rg s) (rg (fst (fst out))).
 Proof.
   intros g s e d k src. cbv zeta.
   pose proof (registries_append_only g s e d (SBad k src)) as G.
-  simpl in *. destruct k; destruct (get e src); simpl in *; (repeat match goal with |- _ /\ _ => split end); auto.
+  simpl in *. destruct k; destruct (get e src); try destruct (wrap g (op_from g) f);
+    simpl in *; (repeat match goal with |- _ /\ _ => split end); auto; lia.
 Qed.
 
 (** the same for ANY step that raises while a frame is being constructed (nothing is bound and it is not an action):
